@@ -16,7 +16,6 @@ package static
 import (
 	"fmt"
 	"regexp"
-	"strings"
 
 	"github.com/attestantio/dirk/services/checker"
 	"github.com/attestantio/dirk/services/metrics"
@@ -124,19 +123,12 @@ func parseAndCheckParameters(params ...Parameter) (*parameters, error) {
 func regexify(name string) (*regexp.Regexp, error) {
 	// Empty equates to all.
 	if name == "" {
-		name = "(?i).*"
+		name = ".*"
 	}
-	// Anchor if required.
-	if !strings.HasPrefix(name, "^") {
-		name = fmt.Sprintf("^%s", name)
-	}
-	if !strings.HasSuffix(name, "$") {
-		name = fmt.Sprintf("%s$", name)
-	}
-	// Case insensitivity if required.
-	if !strings.HasPrefix(name, "(?i)") {
-		name = fmt.Sprintf("(?i)%s", name)
-	}
+	// Anchor the whole of the name.  The name is grouped first, so that the anchors apply to
+	// all of it rather than to the outermost alternatives only (e.g. "a|b" must not match "ax").
+	// Case insensitivity is applied to the lot.
+	name = fmt.Sprintf("(?i)^(?:%s)$", name)
 
 	return regexp.Compile(name)
 }
